@@ -432,6 +432,9 @@ def run(pid, tier, seed, extra=None):
     if extra:
         extra(ck, tier, seed)
     run_e2e(ck, pid, tier, seed)
+    if pid in ('C01', 'C02', 'C05', 'C06'):
+        from checks import legacy_e2e
+        legacy_e2e.run_e2e(ck, pid, tier, seed)
     pipeline.close_pool()
     return ck.finish()
 
@@ -443,5 +446,8 @@ def replay(path):
     if rp.get('kind') == 'pipeline':
         print('clause:', rp.get('clause'))
         return pipeline.replay_pipeline(rp)
+    if rp.get('kind') == 'legacy':
+        from checks import legacy_e2e
+        return legacy_e2e.replay(rp)
     print(json.dumps(body, indent=1)[:3000])
     return 1
